@@ -10,6 +10,7 @@ import (
 	"fmt"
 	"hash/fnv"
 	"os"
+	"runtime"
 	"runtime/debug"
 	"sort"
 	"strings"
@@ -234,6 +235,9 @@ func (c *Ctx) Violate(key string, format string, args ...interface{}) {
 		return
 	}
 	d := fmt.Sprintf(format, args...)
+	if n := runtime.GOMAXPROCS(0); n != runtime.NumCPU() {
+		d += fmt.Sprintf(" [observed with GOMAXPROCS=%d; replay with that environment variable if it does not reproduce]", n)
+	}
 	if len(d) > 1500 {
 		d = d[:1500] + "…"
 	}
